@@ -33,7 +33,7 @@ Classes == {"r_zero", "s_zero", "high_s_rej", "high_s_acc", "x_ge_n", "R_inf", "
             "sample_first", "sample_after_zero", "sample_after_ge_n", "sample_exhausted", "sample_short", "sample_edge_accept",
             "drbg_multi", "drbg_vector",
             "priv_ok", "priv_zero", "priv_ge_n", "priv_badlen", "pub_ok_unc", "pub_ok_cmp", "pub_identity", "pub_invalid",
-            "pub_twist", "ecdh_ok", "ecdh_edge", "ecdh_repeat", "key_immutable", "after_scribble", "steered_u2",
+            "pub_twist", "ecdh_ok", "ecdh_edge", "ecdh_repeat", "key_immutable", "after_scribble", "after_derive", "steered_u2",
             "rec_v_ge4", "rec_hi_ok", "rec_hi_overflow", "rec_not_x", "rec_q_inf", "rec_rs_zero", "rec_ok", "rec_honest_other_v"}
 
 RPointOf(q, e, r, s) == LET w == SInv(s) IN PAdd(PMulG(SMul(e, w)), PMul(SMul(r, w), q))
@@ -111,7 +111,8 @@ Verdict(ev) ==
          LET q == PtOfEnc(ev.q)  eo == EOf(ev.digest)  r == H(ev.r)  s == H(ev.s)
              want == eo[1] = "ok" /\ VerifyPred(q, eo[2], r, s) IN
          << KeyOK(ev.q) /\ (ev.out <=> want),
-            VerifyClasses(q, eo, r, s, ev.out) \cup DigestClasses(ev.digest) \cup (IF Has(ev, "after_scribble") THEN {"after_scribble"} ELSE {}) >>
+            VerifyClasses(q, eo, r, s, ev.out) \cup DigestClasses(ev.digest) \cup (IF Has(ev, "after_scribble") THEN {"after_scribble"} ELSE {})
+            \cup (IF Has(ev, "after_derive") THEN {"after_derive"} ELSE {}) >>
     [] ev.ev = "vfy.Alt" ->
          LET d == H(ev.d)  eo == EOf(ev.digest)  r == H(ev.r)  s == H(ev.s)
              want == eo[1] = "ok" /\ VerifyPred(PMulG(d), eo[2], r, s) IN
